@@ -240,17 +240,19 @@ impl KnownOptimumProblem for RealP {
 
 #[derive(Clone)]
 pub struct BitsP {
+    /// count ones instead of zeros (a different objective on the same search space)
+    pub inverted: bool,
     pub dim: usize,
     pub name: String,
     pub instr: Instr,
 }
 impl BitsP {
     pub fn new(dim: usize) -> Self {
-        Self { dim, name: format!("bits-{dim}"), instr: Instr::new() }
+        Self { inverted: false, dim, name: format!("bits-{dim}"), instr: Instr::new() }
     }
     pub fn f(&self, x: &[bool]) -> f64 {
         // one-max as minimisation
-        x.iter().filter(|b| !**b).count() as f64
+        x.iter().filter(|b| **b == self.inverted).count() as f64
     }
 }
 impl Problem for BitsP {
@@ -418,6 +420,8 @@ pub trait Instrumented: Problem<Objective = SingleObjective> + ObjectiveFunction
     fn sibling(&self) -> Self;
     /// An equal instance with an instrument of its own.
     fn fresh_copy(&self) -> Self;
+    /// An instance over the same search space (dimension, domain) with a different objective function.
+    fn variant(&self) -> Self;
 }
 impl Instrumented for RealP {
     fn instr(&self) -> &Instr {
@@ -439,6 +443,11 @@ impl Instrumented for RealP {
         p.instr = Instr::new();
         p
     }
+    fn variant(&self) -> Self {
+        let mut p = self.fresh_copy();
+        p.kind = if self.kind == RealKind::Rastrigin { RealKind::Slope } else { RealKind::Rastrigin };
+        p
+    }
 }
 impl Instrumented for BitsP {
     fn instr(&self) -> &Instr {
@@ -458,6 +467,11 @@ impl Instrumented for BitsP {
         p.instr = Instr::new();
         p
     }
+    fn variant(&self) -> Self {
+        let mut p = self.fresh_copy();
+        p.inverted = !self.inverted;
+        p
+    }
 }
 impl Instrumented for TspP {
     fn instr(&self) -> &Instr {
@@ -475,6 +489,19 @@ impl Instrumented for TspP {
     fn fresh_copy(&self) -> Self {
         let mut p = self.clone();
         p.instr = Instr::new();
+        p
+    }
+    fn variant(&self) -> Self {
+        let mut p = self.fresh_copy();
+        // reversed distance table: another symmetric matrix over the same cities
+        let n = self.n;
+        let mut d = vec![0.0; n * n];
+        for i in 0..n {
+            for j in 0..n {
+                d[i * n + j] = self.dist[(n - 1 - i) * n + (n - 1 - j)];
+            }
+        }
+        p.dist = d;
         p
     }
 }
